@@ -7,3 +7,8 @@ import RdfModel.Props.C07Doc
 #print axioms RdfModel.C07.spaceOK_unicode_minus_ogham
 #print axioms RdfModel.C07.ttl_sub_trig_real_partial
 #print axioms RdfModel.C07.ttl_sub_trig_unicode_partial
+#print axioms RdfModel.C07.ntCfg_real
+#print axioms RdfModel.C07.nt_sub_ttl_partial
+#print axioms RdfModel.C07.finding_bnode_label_colon
+#print axioms RdfModel.C07.nt_sub_ttl_refuted
+#print axioms RdfModel.C07.ttl_sub_trig_driver_partial
